@@ -498,7 +498,7 @@ Definition catch_up (s : st) : list lab := repeat LR (length (chan s)) ++ repeat
 Record tcase := {
   tc_cap : nat; tc_ops : list op; tc_sync : list bool; tc_kill : option nat; tc_flush : bool;
   (* what the implementation showed *)
-  tc_shl : list nat; tc_wl : list nat; tc_file : list N }.
+  tc_shl : list nat; tc_shf : list N; tc_wl : list nat; tc_file : list N }.
 
 Definition fuel_for (n : nat) : nat := 12 * n + 12.
 Fixpoint tie_ops (cap : nat) (groups : list (list rec)) (syncs : list bool) (kill : option nat) (s : st) : st :=
@@ -517,10 +517,11 @@ Definition tc_groups (tc : tcase) : list (list rec) :=
   if tc_flush tc then rss ++ [segv_flush stk] else rss.
 Definition tc_state (tc : tcase) : st :=
   tie_ops (tc_cap tc) (tc_groups tc) (tc_sync tc) (tc_kill tc) (init (concat (tc_groups tc))).
-Definition obs (s : st) : list nat * list nat * list N :=
+Definition obs (s : st) : list nat * list N * list nat * list N :=
   let s1 := drain s in
   let s2 := flush_shmem_list s1 in
-  (shl s1, map (fun i => b_size (getb i (bufs s2))) (wl s2), file (record_remaining s2)).
+  (shl s1, map (fun i => flag_val (b_flag (getb i (bufs s1)))) (shl s1),
+   map (fun i => b_size (getb i (bufs s2))) (wl s2), file (record_remaining s2)).
 Fixpoint nat_list_eqb (a b : list nat) : bool :=
   match a, b with
   | [], [] => true
@@ -529,8 +530,8 @@ Fixpoint nat_list_eqb (a b : list nat) : bool :=
   end.
 (* model = implementation on this case *)
 Definition agrees (tc : tcase) : bool :=
-  let '(a, b, c) := obs (tc_state tc) in
-  nat_list_eqb a (tc_shl tc) && nat_list_eqb b (tc_wl tc) && list_eqb c (tc_file tc).
+  let '(a, f, b, c) := obs (tc_state tc) in
+  nat_list_eqb a (tc_shl tc) && list_eqb f (tc_shf tc) && nat_list_eqb b (tc_wl tc) && list_eqb c (tc_file tc).
 (* the property on the implementation's file: whole records, a prefix of the execution; after a
    crash handler that ran to completion: the whole eager trace (every open call included) *)
 Definition ok_case (tc : tcase) : bool :=
@@ -541,3 +542,49 @@ Definition window_shape (tc : tcase) : bool :=
   let f := tc_file tc in
   (16 <=? length f) && ok_prefix (eager [] (tc_ops tc)) (firstn (length f - 16) f).
 Definition tc_in_window (tc : tcase) : bool := in_window (tc_state tc).
+
+(* ---- one case of the liveness tie: messages / SIGCHLD / check_tid_list on real processes ---- *)
+Inductive lev :=
+| LMsg (m : tmsg)
+| LSig (pid : Z)
+| LCheck (dead : list Z)                          (* tids whose /proc/<tid>/stat is gone or shows Z *)
+         (ret cex fin : bool) (l : list (Z * Z * bool)).   (* what the implementation reported *)
+Definition tl_eqb (t : tl) (e : Z * Z * bool) : bool :=
+  let '(p, i, x) := e in (t_pid t =? p)%Z && (t_tid t =? i)%Z && Bool.eqb (t_exited t) x.
+Fixpoint tls_eqb (a : list tl) (b : list (Z * Z * bool)) : bool :=
+  match a, b with
+  | [], [] => true
+  | x :: a', y :: b' => tl_eqb x y && tls_eqb a' b'
+  | _, _ => false
+  end.
+Definition in_list (l : list Z) (z : Z) : bool := existsb (Z.eqb z) l.
+Fixpoint live_agrees (evs : list lev) (s : rs) : bool :=
+  match evs with
+  | [] => true
+  | LMsg m :: r => live_agrees r (handle m s)
+  | LSig p :: r => live_agrees r (sigchld p s)
+  | LCheck dead ret cex fin l :: r =>
+      let '(s1, all) := check_tid_list (in_list dead) s in
+      Bool.eqb all ret && Bool.eqb (child_exited s1) cex && Bool.eqb (finish_received s1) fin
+      && tls_eqb (tids s1) l && live_agrees r s1
+  end.
+(* the property on what the implementation reported: a dead task with a real tid is marked, and
+   when every entry is marked the answer is "all exited" *)
+Definition ok_check (dead : list Z) (ret : bool) (l : list (Z * Z * bool)) : bool :=
+  forallb (fun e => let '(_, i, x) := e in (i <? 0)%Z || negb (in_list dead i) || x) l
+  && (negb (forallb (fun e => let '(_, _, x) := e in x) l) || ret).
+Fixpoint ok_live (evs : list lev) : bool :=
+  match evs with
+  | [] => true
+  | LCheck dead ret _ _ l :: r => ok_check dead ret l && ok_live r
+  | _ :: r => ok_live r
+  end.
+(* a listed task with tid = -1 (FORK_START without FORK_END) at a check where everything else is done *)
+Fixpoint fork_window_seen (evs : list lev) : bool :=
+  match evs with
+  | [] => false
+  | LCheck dead ret _ _ l :: r =>
+      (negb ret && forallb (fun e => let '(_, i, x) := e in (i <? 0)%Z || x) l
+       && existsb (fun e => let '(_, i, x) := e in (i <? 0)%Z && negb x) l) || fork_window_seen r
+  | _ :: r => fork_window_seen r
+  end.
